@@ -4,9 +4,11 @@ use replay_common::*;
 mod u09;
 mod u10;
 mod u11;
+mod u16;
 
 fn main() {
-    main_with(&[Driver { name: "U09", search: u09::search, run: u09::run },
+    main_with(&[Driver { name: "U16", search: u16::search, run: u16::run },
+        Driver { name: "U09", search: u09::search, run: u09::run },
         Driver { name: "U10", search: u10::search, run: u10::run },
         Driver { name: "U11", search: u11::search, run: u11::run }]);
 }
